@@ -61,6 +61,13 @@ func init() {
 		Trusted: trust("A-PS", "A-HOOK")})
 	add(&propSpec{ID: "C10", Level: "proof", Funcs: []string{"bexpr.CreateEvaluator", "bexpr.CreateFilter", "bexpr.compileRegexps", "grammar.MaxExpressions"},
 		Trusted: trust("A-ENGINE", "A-STACK", "A-REGEXP")})
+	add(&propSpec{ID: "C11", Level: "proof", Funcs: []string{"grammar.parser.parseExpr", "grammar.parser.parseRule", "grammar.parser.parseActionExpr", "grammar.parser.parseAndCodeExpr",
+		"grammar.parser.parseAndExpr", "grammar.parser.parseAnyMatcher", "grammar.parser.parseCharClassMatcher", "grammar.parser.parseChoiceExpr", "grammar.parser.parseLabeledExpr",
+		"grammar.parser.parseLitMatcher", "grammar.parser.parseNotCodeExpr", "grammar.parser.parseNotExpr", "grammar.parser.parseOneOrMoreExpr", "grammar.parser.parseRecoveryExpr",
+		"grammar.parser.parseRuleRefExpr", "grammar.parser.parseSeqExpr", "grammar.parser.parseThrowExpr", "grammar.parser.parseZeroOrMoreExpr", "grammar.parser.parseZeroOrOneExpr",
+		"grammar.newParser", "grammar.parser.setOptions", "grammar.MaxExpressions", "grammar.MaxExpressions$1", "grammar.Recover$1", "grammar.Entrypoint$1", "grammar.AllowInvalidUTF8$1", "grammar.GlobalStore$1",
+		"bexpr.CreateEvaluator", "bexpr.WithMaxExpressions", "bexpr.WithMaxExpressions$1", "bexpr.getOpts"},
+		Extras: []string{"frame:budget-fields"}, Trusted: trust("A-ARITH-1", "A-ENGINE", "A-STACK")})
 	add(&propSpec{ID: "C20", Level: "translation_validation", Extras: []string{"table:peg"}, NoBattery: true,
 		Trusted: []string{"A-GEN"}})
 	add(&propSpec{ID: "C08", Level: "proof", Funcs: []string{"bexpr.getValue", "bexpr.evaluateNotPresent", "bexpr.doMatchIsEmpty", "bexpr.doMatchEqual", "bexpr.doMatchIn", "bexpr.doMatchMatches",
